@@ -668,6 +668,14 @@ def main():
     if seed == 0:
         seed = 1
     seed = abs(seed) % (1 << 31) or 1
+    # one run per property at a time (evidence/<prop>.json and replays/<prop>/ are per property); helper tools that
+    # restore evidence after a run against a changed tree hold the lock themselves and set VF_LOCK_HELD
+    if not os.environ.get("VF_LOCK_HELD") and not replay:
+        import fcntl
+        os.makedirs(BUILD, exist_ok=True)
+        _lock = open(os.path.join(BUILD, "lock-" + prop), "w")
+        fcntl.flock(_lock, fcntl.LOCK_EX)
+        globals()["_prop_lock"] = _lock
     spec = load_spec(prop)
     known = load_known(prop)
     known_ids = [k["id"] for k in known]
